@@ -154,6 +154,8 @@ def conc(v, what="value"):
 def cells(e, st, p, n):
     if n == 0:
         return []
+    if isinstance(p, Ptr) and is_sym(p.off):
+        p = e.concrete_ptr(st, p, "buffer read")
     o, off = e.check_access(st, p, n, "read cells")
     return list(o.data[off:off + n])
 
@@ -161,6 +163,8 @@ def cells(e, st, p, n):
 def put_cells(e, st, p, cs):
     if not cs:
         return
+    if isinstance(p, Ptr) and is_sym(p.off):
+        p = e.concrete_ptr(st, p, "buffer write")
     o, off = e.check_access(st, p, len(cs), "write cells")
     d = e.get_obj_w(st, p.obj)
     d.data[off:off + len(cs)] = cs
